@@ -14,7 +14,7 @@ MANIFEST = {
              'Theorems (all unbounded): C17_bus_refines_spec -- for every store, every max_persist in {None, >=1} and EVERY history '
              '(selections by label/list/slice/Boolean/position, items, values, keys, status, get, iter_element(_items), drop, reindex, '
              'sort_index, sort_values, derived Bus continued or not, file touched/rewritten/removed/put back at any point) M returns exactly '
-             'the Frames, labels, loaded flags and exceptions of S -- no domain restriction; C17_repairs_in_place -- the regenerated '
+             'the Frames, labels, loaded flags and exceptions of S -- no domain restriction; C17_init_refines_spec -- the same for a Bus built by the public constructor (or _derive) from ANY Series already holding Frames: refused iff more are held than max_persist, else every history refines S started with the held labels; C17_repairs_in_place -- the regenerated '
              'constants say bus.py has the repaired statements (commits 71280f9 dee625c 949c364 5b16856 615b06f); the refinement proof '
              'rests on it, so reverting a repair breaks both; C17_spec_bounded -- never more than max_persist loaded, all histories; '
              'C17_spec_is_lru / C17_spec_no_limit_keeps_all -- the cache holds exactly the min(k, distinct) most recently used labels; '
